@@ -819,6 +819,7 @@ func (r *Raft) ReloadableConfig() ReloadableConfig {
 func (r *Raft) BootstrapCluster(configuration Configuration) Future {
 	bootstrapReq := &bootstrapFuture{}
 	bootstrapReq.init()
+	bootstrapReq.ShutdownCh = r.shutdownCh
 	bootstrapReq.configuration = configuration
 	select {
 	case <-r.shutdownCh:
@@ -890,6 +891,7 @@ func (r *Raft) ApplyLog(log Log, timeout time.Duration) ApplyFuture {
 		},
 	}
 	logFuture.init()
+	logFuture.ShutdownCh = r.shutdownCh
 
 	select {
 	case <-timer:
@@ -916,6 +918,7 @@ func (r *Raft) Barrier(timeout time.Duration) Future {
 	// Create a log future, no index or term yet
 	logFuture := &logFuture{log: Log{Type: LogBarrier}}
 	logFuture.init()
+	logFuture.ShutdownCh = r.shutdownCh
 
 	select {
 	case <-timer:
@@ -934,6 +937,7 @@ func (r *Raft) VerifyLeader() Future {
 	metrics.IncrCounter([]string{"raft", "verify_leader"}, 1)
 	verifyFuture := &verifyFuture{}
 	verifyFuture.init()
+	verifyFuture.ShutdownCh = r.shutdownCh
 	select {
 	case <-r.shutdownCh:
 		return errorFuture{ErrRaftShutdown}
@@ -947,6 +951,7 @@ func (r *Raft) VerifyLeader() Future {
 func (r *Raft) GetConfiguration() ConfigurationFuture {
 	configReq := &configurationsFuture{}
 	configReq.init()
+	configReq.ShutdownCh = r.shutdownCh
 	configReq.configurations = configurations{latest: r.getLatestConfiguration()}
 	configReq.respond(nil)
 	return configReq
@@ -1080,6 +1085,7 @@ func (r *Raft) Shutdown() Future {
 func (r *Raft) Snapshot() SnapshotFuture {
 	future := &userSnapshotFuture{}
 	future.init()
+	future.ShutdownCh = r.shutdownCh
 	select {
 	case r.userSnapshotCh <- future:
 		return future
@@ -1116,6 +1122,7 @@ func (r *Raft) Restore(meta *SnapshotMeta, reader io.Reader, timeout time.Durati
 		reader: reader,
 	}
 	restore.init()
+	restore.ShutdownCh = r.shutdownCh
 	select {
 	case <-timer:
 		return ErrEnqueueTimeout
@@ -1138,6 +1145,7 @@ func (r *Raft) Restore(meta *SnapshotMeta, reader io.Reader, timeout time.Durati
 		},
 	}
 	noop.init()
+	noop.ShutdownCh = r.shutdownCh
 	select {
 	case <-timer:
 		return ErrEnqueueTimeout
